@@ -235,6 +235,14 @@ def run(prop, tier, seed):
                 ls = f.readlines()
             samples.append({"instance": inst, "seed": s, "events": len(ls),
                             "first_events": [json.loads(x) for x in ls[2:5]]})
+    concurrent = None
+    if prop == "C10":
+        # C10 also after concurrent phases once all threads have quiesced: the executions of
+        # the C03 scenario family, final statistics judged by OlcTrace in mode C10
+        import check_olc
+        concurrent = check_olc.validate_runs("C10", tier, seed, rep, ["point"])
+        states += concurrent["states"]
+        ntraces += concurrent["traces_validated_against_impl"]
     rc = rep.finish()
     never = sorted(k for k, v in cov_total.items() if v == 0)
     coverage = {
@@ -250,6 +258,8 @@ def run(prop, tier, seed):
         "instances": ["%s<%s>" % (DB_NAMES[a], KEY_NAMES[b]) for a, b in INSTANCES],
         "mode": mode,
     }
+    if concurrent is not None:
+        coverage["concurrent_phase"] = {k: v for k, v in concurrent.items() if k not in ("samples", "scenarios", "rule")}
     vlib.write_evidence(prop, tier, seed, "model_checking", coverage,
                         vlib.ASSUME_COMMON + [
                             "histories are generated (seeded, aimed at every structural case of ArtSeq), not enumerated",
